@@ -273,7 +273,10 @@ class World:
             p.tainted = True
             self._fired('inject')
         elif k == 'note':
-            pass
+            for m in self.monitors:
+                fn = getattr(m, 'note', None)
+                if fn is not None:
+                    fn(self, ev)
         else:
             raise ValueError('unknown event %r' % (k,))
         if step is not None:
